@@ -342,3 +342,8 @@ def run(ck: Check, repo: Repo) -> None:
     rule_document(ck, repo)
     rule_checksum(ck, repo)
     rule_concluded(ck, repo)
+    # 'a File section for every covered file and for no other file': the covered set (shared with C03-R1/R2)
+    from . import c03
+    from ..fold import Folder
+    langs = c03.rule_languages(ck, repo, Folder(repo), "R4")
+    c03.rule_decision(ck, repo, langs, "R5")
